@@ -11,3 +11,8 @@ import CantoVerif.Proofs.CoinswapArith
 import CantoVerif.Proofs.CoinswapEffects
 import CantoVerif.Proofs.CoinswapWF
 import CantoVerif.Props.C01
+import CantoVerif.Model.Params
+import CantoVerif.Spec.Params
+import CantoVerif.Driver.Params
+import CantoVerif.Proofs.ParamsLemmas
+import CantoVerif.Props.C17
